@@ -5,7 +5,9 @@ Proof:   Props/C16.v over Gen/Kernels.v (mask_channels) and Gen/C16Rfi.v (apply_
 Correspondence (Coq model under vm_compute vs the implementation on the same inputs):
          the generated kernel vs the compiled numba kernel; the block-loop model vs the file written by
          apply_channel_mask (every gulp, every depth; for sub-byte depths also the packed bytes); the whole of clean_rfi
-         and random histories of operations, with the z-score estimators executed in exact rational arithmetic.
+         and random histories of operations, with the z-score estimators executed in exact rational arithmetic; extended
+         histories (threshold assigned between operations, infinite / integer range end points, integer-valued custom function,
+         preset starting mask) against run_opsx_exec: chan_mask and stats_mask after every operation.
 Oracle (the property restated in plain Python/NumPy, evaluated against the implementation): see the functions o_*.
 """
 from __future__ import annotations
@@ -349,15 +351,15 @@ def run(R: vlib.Run):
     rng = R.rng
     quick = R.tier == "quick"
     T = Tmp()
-    corr_kernel, corr_file, corr_packed, corr_clean, corr_hist = [], [], [], [], []
+    corr_kernel, corr_file, corr_packed, corr_clean, corr_hist, corr_histx = [], [], [], [], [], []
     try:
         _kernel_cases(R, rng, kernels, quick, corr_kernel)
         _rule_cases(R, rng, rfi, quick)
         _file_cases(R, rng, T, FilReader, quick, corr_file, corr_packed)
         _clean_cases(R, rng, T, FilReader, rfi, quick, corr_clean)
-        _history_cases(R, rng, rfi, Header, quick, corr_hist, T)
+        _history_cases(R, rng, rfi, Header, quick, corr_hist, T, corr_histx)
         _h5_cases(R, rng, T, rfi, Header, FilReader, SkyCoord, Angle, quick)
-        _correspond(R, corr_kernel, corr_file, corr_packed, corr_clean, corr_hist)
+        _correspond(R, corr_kernel, corr_file, corr_packed, corr_clean, corr_hist, corr_histx)
     finally:
         T.cleanup()
     return R
@@ -621,7 +623,7 @@ def _file_bits_cases(R, rng, nprng, T, FilReader, quick):
 
 # ------------------------------------------------------------------------------------------------
 RANGE_KINDS = ("none", "empty", "inside", "overlap", "outside", "edges", "reversed", "whole")
-RANGE_KINDS_X = ("halfline", "intlists")        # oracle only (the model's ranges are finite rationals given as pairs)
+RANGE_KINDS_X = ("halfline", "intlists")        # clean_rfi: oracle only; histories: also the extended model (apply_mask_x over xq end points)
 
 
 def make_ranges(rng, kind, fch1, foff, nchans):
@@ -795,13 +797,13 @@ def _clean_cases(R, rng, T, FilReader, rfi, quick, corr):
 
 
 # ------------------------------------------------------------------------------------------------
-def _history_cases(R, rng, rfi, Header, quick, corr, T=None):
+def _history_cases(R, rng, rfi, Header, quick, corr, T=None, corrx=None):
     """any sequence of public operations on one RFIMask only adds channels, and chan_mask contains the components"""
     nprng = np.random.default_rng(rng.randrange(1 << 30))
     n_std = 40 if quick else 600
-    # further histories (after the others; not sent to the model, whose histories start from a fresh mask, keep one threshold and know the
-    # custom functions 0..5): the threshold attribute is changed between operations, the custom function returns integers, and the
-    # history starts from a mask that was loaded from a file with channels already masked that belong to none of the component masks
+    # further histories (after the others; sent to the extended history model run_opsx of Model/C16_MaskAlg.v through `corrx`): the
+    # threshold attribute is changed between operations, the custom function returns integers, range end points are infinite / integers,
+    # and the history starts from a mask that was loaded from a file with channels already masked that belong to none of the component masks
     n_ext = (16 if quick else 150) if T is not None else 0
     for it in range(n_std + n_ext):
         ext = it >= n_std
@@ -816,7 +818,8 @@ def _history_cases(R, rng, rfi, Header, quick, corr, T=None):
             vecs.append(v)
         thr = rng.choice([2.0, 3.0, 4.5])
         m = rfi.RFIMask(thr, hdr, np.zeros(n, np.float32), vecs[0], vecs[1], vecs[2], np.zeros(n, np.float32), np.zeros(n, np.float32))
-        ops, trail = [], []
+        ops, trail, strail = [], [], []
+        thr0 = thr
         if ext and it % 2 == 1:
             m.chan_mask = nprng.integers(0, 3, n) == 0
             preset = m.chan_mask.copy()
@@ -828,6 +831,7 @@ def _history_cases(R, rng, rfi, Header, quick, corr, T=None):
             if not np.array_equal(np.asarray(m.chan_mask), preset):
                 R.fail("h5-arrays", "array 'chan_mask' is not reproduced by RFIMask.from_file(to_file())", {"op": "history-from-file", "saved": preset.tolist(), "loaded": np.asarray(m.chan_mask).tolist()})
         prev = np.asarray(m.chan_mask).astype(bool).copy()
+        start = prev.tolist()
         fragile = False
         nops = rng.randrange(1, 7) if not ext else rng.randrange(3, 9)
         # half of the histories start with a non-empty range followed by the statistics / a custom function, so that an
@@ -871,6 +875,7 @@ def _history_cases(R, rng, rfi, Header, quick, corr, T=None):
                 ops.append(("method", "other"))
             cur = np.asarray(m.chan_mask).astype(bool).copy()
             trail.append(cur.tolist())
+            strail.append(np.asarray(m.stats_mask).astype(bool).tolist())
             case = {"op": "history", "nchans": n, "fch1": fch1, "foff": foff, "threshold": thr, "var": vecs[0].tolist(), "skew": vecs[1].tolist(),
                     "kurt": vecs[2].tolist(), "ops": ops, "before": np.where(prev)[0].tolist(), "after": np.where(cur)[0].tolist()}
             if np.any(prev & ~cur):
@@ -884,6 +889,10 @@ def _history_cases(R, rng, rfi, Header, quick, corr, T=None):
             corr.append(dict(n=n, freqs=[float(x) for x in hdr.chan_freqs], var=vecs[0].tolist(), skew=vecs[1].tolist(), kurt=vecs[2].tolist(), thr=thr, ops=ops,
                              trail=trail, user=np.asarray(m.user_mask).astype(bool).tolist(), stats=np.asarray(m.stats_mask).astype(bool).tolist(),
                              custom=np.asarray(m.custom_mask).astype(bool).tolist()))
+        if ext and not fragile and corrx is not None and len(corrx) < (16 if quick else 150):
+            corrx.append(dict(n=n, freqs=[float(x) for x in hdr.chan_freqs], var=vecs[0].tolist(), skew=vecs[1].tolist(), kurt=vecs[2].tolist(), thr0=thr0, start=start,
+                              ops=[(k, ranges_json(a) if k == "mask" else a) for k, a in ops], trail=trail, strail=strail,
+                              user=np.asarray(m.user_mask).astype(bool).tolist(), custom=np.asarray(m.custom_mask).astype(bool).tolist()))
 
 
 # ------------------------------------------------------------------------------------------------
@@ -1010,7 +1019,7 @@ def _eval_idx(R, name, text, cases, what, describe):
         R.disagree(what, describe(cases[b]))
 
 
-def _correspond(R, ck, cf, cp, cc, ch):
+def _correspond(R, ck, cf, cp, cc, ch, chx=()):
     # (a) generated kernel vs compiled kernel
     if ck:
         t = PRE + "Definition cases : list (list Z * list Z * Z * Z * Z * list Z) := [\n" + ";\n".join(
@@ -1077,6 +1086,33 @@ def _correspond(R, ck, cf, cp, cc, ch):
               "  if list_eq_dec (list_eq_dec bool_dec) (run_ops_exec n fr va sk ku thr ops) exp then true else false.\n") + IDX
         _eval_idx(R, "c16_hist", t, ch, "history model (generated operations) and the RFIMask object differ",
                   lambda c: {k: c[k] for k in ("n", "thr", "ops", "var", "skew", "kurt", "trail", "user", "stats", "custom")})
+    # (d') extended histories: threshold assignments, infinite / integer end points, custom function 6, a preset starting mask;
+    #      compared: chan_mask AND stats_mask after every operation, user and custom mask at the end
+    if chx:
+        def xq_lit(e):
+            e = float(e)
+            return "XPosInf" if e == float("inf") else "XNegInf" if e == float("-inf") else f"XFin {qlit(e)}"
+        rows = []
+        for c in chx:
+            ops = []
+            for k, a in c["ops"]:
+                if k == "mask":
+                    ops.append("CXMask [" + "; ".join(f"({xq_lit(lo)}, {xq_lit(hi)})" for lo, hi in a) + "]")
+                elif k == "method":
+                    ops.append(f"CXMethod {meth[a]}")
+                elif k == "thr":
+                    ops.append(f"CXThr {qlit(a)}")
+                else:
+                    ops.append(f"CXFuncn {a}")
+            exp = [b for pair in zip(c["trail"], c["strail"]) for b in pair] + [c["user"], c["custom"]]
+            rows.append(f"({c['n']}, {qlist(c['freqs'])}, {qlist(c['var'])}, {qlist(c['skew'])}, {qlist(c['kurt'])}, {qlit(c['thr0'])}, {blist(c['start'])}, [{'; '.join(ops)}],\n  ["
+                        + "; ".join(blist(b) for b in exp) + "])")
+        t = PRE + "Definition cases : list (Z * list Q * list Q * list Q * list Q * Q * list bool * list opcodex * list (list bool)) := [\n" + ";\n".join(rows) + "].\n"
+        t += ("Definition ok (c : Z * list Q * list Q * list Q * list Q * Q * list bool * list opcodex * list (list bool)) : bool :=\n"
+              "  let '(n, fr, va, sk, ku, thr, st, ops, exp) := c in\n"
+              "  if list_eq_dec (list_eq_dec bool_dec) (run_opsx_exec n fr va sk ku thr st ops) exp then true else false.\n") + IDX
+        _eval_idx(R, "c16_histx", t, list(chx), "extended history model (run_opsx over the generated operations) and the RFIMask object differ",
+                  lambda c: {k: c[k] for k in ("n", "thr0", "start", "ops", "var", "skew", "kurt", "trail", "strail", "user", "custom")})
     # (e) what the generated iqrm_mask says about memory layout
     t = PRE + ("Eval vm_compute in iqrm_window_uses_input_strides.\n"
                "Eval vm_compute in (match iqrm_mask (zscore_iqr_exec 8) 8 2 (fun _ => 1000%Q) (qof [1#1;2#1;1#1;2#1;1#1;2#1;1#1;2#1]) 3 2,\n"
@@ -1092,7 +1128,7 @@ def _correspond(R, ck, cf, cp, cc, ch):
         if vals[0] == "true":
             R.notes.append("generated iqrm_mask builds its window with the INPUT array's strides: the model's mask depends on the memory layout "
                            f"(same mask for stride ratio 2 on the witness vector: {vals[1]})")
-    R.extra_cov["correspondence_cases"] = len(ck) + len(cf) + len(cp) + len(cc2) + len(ch)
+    R.extra_cov["correspondence_cases"] = len(ck) + len(cf) + len(cp) + len(cc2) + len(ch) + len(chx)
 
 
 # ------------------------------------------------------------------------------------------------
